@@ -1,4 +1,5 @@
 From Coq Require Import ExtrOcamlBasic.
 From JV Require Import Model.FiltStr Model.FiltHtml.
 Extraction "filthtml_x.ml" FiltHtml.escape FiltHtml.replace4 FiltHtml.do_xmlattr FiltHtml.indent_markup
-  FiltHtml.replace_markup FiltHtml.join_markup FiltHtml.payload.
+  FiltHtml.replace_markup FiltHtml.join_markup FiltHtml.payload FiltHtml.truncate_markup
+  FiltStr.read_Z.
